@@ -171,7 +171,7 @@ class Message:
       # Now calculate the space for each field
       fields = self.GetFieldNames()
       for fieldName in fields:
-         ret += 4+len(fieldName)+1+4+4  # namelen(4), name(n), NUL(1), type(4), fieldBytes(4)
+         ret += 4+len(fieldName.encode())+1+4+4  # namelen(4), name(n bytes of UTF-8), NUL(1), type(4), fieldBytes(4)
          fieldContents = self.GetFieldContents(fieldName)
          fieldType     = self.GetFieldType(fieldName)
          ret += self.GetFieldContentsLength(fieldType, fieldContents)
